@@ -413,6 +413,43 @@ def linear_str(lf):
 # structured path enumeration
 # ---------------------------------------------------------------------------------------------
 
+_CTOR = re.compile(r"^((?:[A-Za-z_][A-Za-z_0-9]*::)+[A-Z][A-Za-z_0-9]*)(?:\((.*)\))?$")
+
+
+def _ctor_match(val, pat):
+    """val, pat: canonical texts.  False: the pattern names another variant of the value's enum (infeasible arm);
+    list of (name, text): same variant, the pattern's plain bindings get the payload components; None: unknown."""
+    mv = _CTOR.match(val or "")
+    mp = _CTOR.match(pat or "")
+    if not mv or not mp:
+        return None
+    hv, hp = mv.group(1), mp.group(1)
+    if hv.rsplit("::", 1)[0] != hp.rsplit("::", 1)[0]:
+        return None
+    if hv != hp:
+        return False
+    if mv.group(2) is None or mp.group(2) is None or not _balanced(mv.group(2)):
+        return []
+    def split(t):
+        parts, d, cur = [], 0, ""
+        for ch in t:
+            if ch in "([{":
+                d += 1
+            elif ch in ")]}":
+                d -= 1
+            if ch == "," and d == 0:
+                parts.append(cur)
+                cur = ""
+            else:
+                cur += ch
+        parts.append(cur)
+        return parts
+    vs, ps = split(mv.group(2)), split(mp.group(2))
+    if len(vs) != len(ps):
+        return []
+    return [(p_, v_) for p_, v_ in zip(ps, vs) if re.match(r"^[a-z_][a-z_0-9]*$", p_) and p_ != "_"]
+
+
 def _balanced(t):
     d = 0
     for ch in t:
@@ -939,10 +976,17 @@ class Enumerator:
                     earlier.append(p)
                 # an earlier guarded arm with the same pattern was tried first: this arm is reached only past its guard
                 need = frozenset(i for i, gp in guarded if gp == p or re.match(r"^(_|[a-z_][a-z_0-9]*)$", gp))
+                # a scrutinee whose constructor is known on this path (`Step::Done`, `Kind::Some(x)` built by an inlined
+                # helper) takes the arm of that constructor only, and binds the arm's names to the payload
+                ctor = _ctor_match(so.val, p)
+                if ctor is False:
+                    continue
                 for c, failed in carry:
                     if not need <= failed:
                         continue
                     base = so.events + c + [Ev("arm", so.val, p, c=prev_pats, node=arm)]
+                    if ctor:
+                        base = base + [Ev("let", nm_, tx_, node=None) for nm_, tx_ in ctor if nm_ != tx_]
                     alts = [(base, True)]
                     if arm.get("guard") is not None:
                         alts = [(base + evs, t) for evs, t in self.cond_alts(arm["guard"])]
